@@ -109,6 +109,13 @@ fn registry() -> Vec<CheckDef>
 			case_timeout_ms: 30_000,
 			level_text: "every accepted program of the exhaustive spaces (complete type matrix, all label/variable/placement bodies up to a size bound, all declaration shapes natively and for wasm, all module histories, the corpus) is compiled by the real pipeline; the printed IR of every module and of the linked program is judged by LLVM's own assembler and verifier as separate processes and by a linkage model",
 		},
+		CheckDef {
+			id: "C11",
+			drive: checks::c11::drive,
+			work: checks::c11::work,
+			case_timeout_ms: 30_000,
+			level_text: "exhaustive enumeration of all labelled dependency digraphs on a bounded number of containers (constants and structures) with every kind assignment and every permutation of the declarations, all duplicate-name pairs, a type x position legality table under several declaration orders and all word member lists up to three members; each program compiled by the real pipeline and compared with a graph model (acyclic <=> accepted, cycle codes) and across permutations",
+		},
 	]
 }
 
